@@ -45,10 +45,12 @@ PROPS = {
     },
     "C02": {
         "groups": [{"name": "C02", "quick": 1200, "thorough": 40000, "workers": 12}],
-        "rule": "multi-host worlds over five loopback TLS hosts: two actors on different hosts, a forged actor document, a thread of notes with replies, a replies collection and a paged outbox, where every reference is chosen among URL, embedded copy (stamped by the embedding host), stub of <= 2 keys, redirect; ids sometimes lie about their host; authors/actors/reply targets are sometimes impostors; start object chosen among all; "
-                "compared: the whole item tree (kinds, ids, names = serving-host stamps, creators, parents, listed children); non-trivial = at least one child or ancestor is listed; distinct by op content",
+        "rule": "multi-host worlds over five loopback TLS hosts plus a sixth authority that is the first host's address under another port: two actors on different hosts (or on authorities that differ by port only), a forged actor document, a second document on the victim's own host claiming the victim's id, the attacker's own actor and note under the very paths the victim's have, a thread of notes with replies, a replies collection and a paged outbox, where every reference is chosen among URL, embedded copy (stamped by the embedding host; with its id, with its id spelled differently, without any id), stub of <= 2 keys, redirect; "
+                "URLs and ids are sometimes spelled with userinfo, an upper-case or http scheme, a fragment, the host's address under an unused port or without a port, relative to the referring object (/path, name, ./name, ../dir/name, //host/path, ?query, the empty string, '.', '#top') or with dot segments; actor / inReplyTo are sometimes written as lists of one or two, attributedTo lists and collection entries also hold null, numbers, booleans, nested lists, empty objects, bare notes, unparsable and non-https URLs; ids sometimes lie about their host; authors/actors/reply targets are sometimes impostors; "
+                "one world in six is a collection opened directly whose pages live at URLs of their own on several hosts (chains that end, that come back to themselves / the first page / the root / the page before, next behind a redirect or on another host, pages with, without or with a foreign id, first on pages and next on roots, runs of empty pages, sizes that lie); start object chosen among all; the first harvest (0..20 items) is sometimes continued by 1..3 more on the continuation it returned (amounts 0..5); "
+                "compared: the whole item tree (kinds, ids, names = serving-host stamps, creators, parents, listed children of every round); the provenance predicate compares the authority url.Parse reads out of an item's id with the host that stamped its JSON; non-trivial = at least one child or ancestor is listed; distinct by op content",
         "trusted": ["crypto/tls, net; url.Parse (String/Host) as an oracle table; json decoding as an oracle table",
-                    "references are absolute in generated worlds (ResolveReference is the identity; asserted by the harness)",
+                    "url.ResolveReference as an oracle table: every id of the world x every string in a reference position, listed where the result is not the reference itself (model parameter `World.resolve`)",
                     "goroutine fan-out in the constructors is an order-preserving map"],
         "assumptions": ["FetchURL semantics are those of the jtp model (C03), composed into the world by the driver"],
         "shrink_budget": 3,
@@ -91,8 +93,8 @@ PROPS = {
     },
     "C09": {
         "groups": [{"name": "C02", "quick": 1200, "thorough": 40000, "workers": 12}],
-        "rule": "the same multi-host worlds as C02 (outboxes and reply collections mixing legitimate entries with other-actor activities, other-parent comments, foreign-host authors, missing ids/actors/reply targets, embedded vs referenced, failing fetches); "
-                "compared: per-position classification of every listed entry; predicates on the implementation's output: a listed activity's actor id equals the owner's id, a listed reply's parent id equals the post's id, authors share the post's host; non-trivial = at least one child or ancestor is listed; distinct by op content",
+        "rule": "the same multi-host worlds as C02 (outboxes and reply collections mixing legitimate entries with other-actor activities, other-parent comments, foreign-host authors, missing ids/actors/reply targets, embedded vs referenced, failing fetches; actors and reply targets that are the owner's in another spelling (userinfo, fragment, scheme), under the same path on another host, on the same address under another port, a same-host document claiming the owner's id; actor / inReplyTo written as lists; entries that are no references or no activities at all: null, numbers, nested lists, bare notes; listings continued over several requests); "
+                "compared: per-position classification of every listed entry; predicates on the implementation's output: a listed activity's actor id equals the owner's id, a listed reply's parent id equals the post's id, authors share the post's host (the authority url.Parse reads out of the two ids); non-trivial = at least one child or ancestor is listed; distinct by op content",
         "trusted": ["as C02"],
         "assumptions": [],
         "shrink_budget": 3,
@@ -139,12 +141,13 @@ PROPS = {
     "C10": {
         "lean_modules": ["Props.Facts10", "Props.Gen10", "Props.GenT10"],
         "groups": [{"name": "C10", "quick": 4000, "thorough": 150000},
-                   # remote pages over the simulator (pages named by URL, on other hosts, URLs that differ in letter case only)
-                   {"name": "C02", "quick": 600, "thorough": 20000}],
-        "rule": "page chains of 0..18 embedded pages (Collection/OrderedCollection, items on the root and/or pages, empty pages with varying bias, absent/null/single-value items, wrong page types, chains ending in a non-https reference, a non-object, a non-collection or an object that would need re-fetching) x request-size sequences (one large request, constant small requests, random sizes incl. 0) x start offsets; "
+                   # remote pages over the simulator (pages named by URL, on other hosts, URLs that differ in letter case only,
+                   # cyclic chains, relative `next`, continued harvests; see the rule of C02)
+                   {"name": "C02", "quick": 960, "thorough": 30000, "workers": 12}],
+        "rule": "page chains of 0..18 embedded pages (Collection/OrderedCollection, items on the root and/or pages, empty pages with varying bias and layouts with runs of exactly 1..4 empty pages between full ones (the root counting), absent/null/single-value items, the key of the other flavour (items vs orderedItems) present as a decoy, totalItems of every JSON type on roots and pages, first on pages and next on roots, wrong page types, chains ending in a non-https reference, a non-object, a non-collection or an object that would need re-fetching) x request-size sequences (one large request, constant small requests, random sizes incl. 0, sizes 0 / 1 / total-1 / total / total+1 / 2*total) x start offsets x scripts in which the latest continuation is asked again and older continuations are asked after newer ones exist; "
                 "non-trivial = at least three pages visited; distinct by op content",
         "trusted": ["encoding/json decoding (typed tree shipped to the model)",
-                    "remote pages: in this check every `next` that would need the network fails deterministically (non-https / non-object); remote and cyclic chains are covered by the theorems (arbitrary `load`) and by the simulator-based checks (C02/C09)"],
+                    "remote pages: in the paging group every `next` that would need the network fails deterministically (non-https / non-object); remote and cyclic chains (next -> itself, -> first page, -> root, A -> B -> A, across hosts and redirects) run in the C02 group of this check over the TLS simulator, with `listing_is_the_pages_items_in_order` evaluated on every round of a continued harvest"],
         "assumptions": ["amount + startingPoint < 2^64 (Go uint)"],
     },
     "C11": {
@@ -155,7 +158,7 @@ PROPS = {
         "groups": [{"name": "C11", "quick": 4000, "thorough": 150000},
                    # feeds over simulator-served actors and collections, through splicer.NewSplicer and the UI
                    {"name": "C07", "quick": 128, "thorough": 4000, "workers": 16}],
-        "rule": "0..4 sources of 0..7 items (newest-first with ties, or unsorted; missing timestamps; empty and nil sources) over exact-delivery synthetic containers x scripts of 1..6 harvests (sizes 0..6, start offsets, 'again' = the same position asked twice); "
+        "rule": "0..4 sources of 0..7 items, one of them sometimes 15..44 items long (newest-first with ties, or unsorted; missing timestamps; empty and nil sources; the same item listed by two sources) over exact-delivery synthetic containers, flat or paged like a collection (every page a container of its own, continuation = page + offset); timestamp classes: whole seconds, differences below one second, equal instants written in different zones, far past / far future around and before the zero time, every source carrying the same few instants; x scripts of 1..6 harvests (sizes 0..6 and 1 / total-1 / total / total+1, start offsets, 'again' = the same position asked twice, 'old' = an earlier continuation asked after newer ones exist, 'par' = four concurrent askers); "
                 "non-trivial = at least two sources and three delivered items; distinct by op content",
         "trusted": ["slice aliasing in Splicer.clone (shared backing arrays) is modelled by value semantics; 'again' steps re-harvest old positions to exercise it",
                     "containers deliver exactly the requested amount unless exhausted (C10 theorem harvest_cont)"],
